@@ -16,9 +16,9 @@ VARIABLE t
 
 B(x) == <<x>>
 Tokens ==
-  CASE Family = 1 -> { B(34), B(92), B(110), B(101), B(48), B(51), B(55), B(56), B(120), B(52), B(102),
-                       B(103), B(99), B(94), B(63), B(64), B(91), B(96), B(97), B(39) }
-         \* " \ n e 0 3 7 8 x 4 f g c ^ ? @ [ ` a '
+  CASE Family = 1 -> { B(34), B(92), <<92, 120>>, <<92, 94>>, <<92, 99>>, B(110), B(101), B(48), <<48, 48>>, <<51, 55>>,
+                       B(55), B(56), <<52, 102>>, <<102, 70>>, B(103), B(63), B(64), B(95), B(96), B(97), B(39) }
+         \* " \ \x \^ \c n e 0 00 37 7 8 4f fF g ? @ _ ` a '
     [] Family = 2 -> { <<92, 117>>, <<92, 85>>, <<48, 48>>, <<49, 48>>, <<49, 49>>, <<100, 56>>, <<101, 57>>,
                        <<102, 102>>, <<55, 70>>, <<48, 103>>, B(48) }
          \* \u \U 00 10 11 d8 e9 ff 7F 0g 0
